@@ -373,3 +373,59 @@ def collision_designs(ctx, rng, n: int) -> Iterator[Tuple[str, Callable]]:
             count += 1
             if count >= n:
                 return
+
+
+def hostile_designs(ctx, rng, n: int) -> Iterator[Tuple[str, Callable]]:
+    """Ill-formed designs (the single-fault mutants of C02).  They ought to be refused; if `to_proto` returns a package for one all
+    the same, that package is judged like any other (C06 quantifies over every package a successful call returns)."""
+    import hdl21 as h
+    from .checks import c02
+
+    bases = [(l, d) for l, d in spec.structural_designs()]
+    rng.shuffle(bases)
+    for label, base in bases[:n]:
+        for m in base["modules"]:
+            m.pop("pre_conns", None)
+        for cls, site, d, expect in c02.mutations(base, rng, 1):
+            yield f"hostile {label}: {cls} at {site}", (lambda d=d: h.to_proto(c02.build_mutant(d).top))
+    # ... and C02's histories: sub-modules edited after another parent's elaboration failed late, or after their own succeeded
+    for label, base in bases[: max(2, n // 4)]:
+        yield f"hostile history {label}: faults added after a failed / finished elaboration", (lambda label=label, base=base: c02.after_failed_parent(_NullRec(), label, base))
+
+
+class _NullRec:
+    """Stands in for a check's recorder when another check's driver is borrowed as plain workload."""
+
+    evaluations = 0
+
+    def __getattr__(self, name):
+        return lambda *a, **k: None
+
+
+def edited_externals(ctx, rng, n: int) -> Iterator[Tuple[str, Callable]]:
+    """One ExternalModule OBJECT, exported, then edited in place (a port appended to its `port_list`, its spice type or description
+    changed) and used by the next design: every package declares the module as it is when that package is made."""
+    import hdl21 as h
+    from vlsirtools import SpiceType
+
+    for k in range(n):
+        em = h.ExternalModule(name=f"Edited{next(_uid)}", domain=rng.choice(["", "hved"]), port_list=[h.Input(name="a"), h.Output(name="z")], paramtype=h.HasNoParams)
+        state = {"step": 0}
+
+        def thunk(em=em, state=state):
+            step = state["step"]
+            state["step"] += 1
+            if step == 1:
+                em.port_list.append(h.Inout(name="vdd"))
+            elif step == 2:
+                em.port_list.append(h.Inout(name="bus", width=3))
+                em.spicetype = SpiceType.RESISTOR if False else em.spicetype
+            elif step == 3:
+                em.port_list.pop(0)
+            m = h.Module(name=f"Ed{next(_uid)}")
+            conns = {p.name: m.add(h.Signal(width=p.width), name=f"n_{p.name}") for p in em.port_list}
+            m.add(em()(**conns), name="x")
+            return h.to_proto(m)
+
+        for step in range(4):
+            yield f"edited external module #{k} step {step}", thunk
